@@ -378,6 +378,8 @@ def mergeNodes (g nid g2 : String) (pol : Option (List (String × Policy))) (s :
     match findNode s g2 nid with
     | .error e => (.error e, s)
     | .ok v =>
+      if u = v then (.error .query, s)        -- other_graph is the caller's own graph (/repo 119fa6d)
+      else
       match nodeAttrs s u, nodeAttrs s v with
       | some mine, some theirs =>
         match pol with
@@ -392,6 +394,30 @@ def mergeNodes (g nid g2 : String) (pol : Option (List (String × Policy))) (s :
     `update_link_property` (the bulk updates have no such assertion: a `None` inside the dictionary is
     stored as a value) -/
 def assertVal (v : Val) (s : Store) (k : R) : R := if v = .none then (.error .assertion, s) else k
+
+/-- `importer.delete_all_graphs()` → `storage.del_all_graphs()`: `self.graphs.clear()`; `start_id` is *not*
+    reset, so internal ids are never handed out twice -/
+def delAllGraphs (s : Store) : R := (.ok .unit, { s with nodes := [], edges := [] })
+
+/-- edges of an imported graph refer to positions of its node list (an `nx.Graph` always does) -/
+def IGraph.WF (ig : IGraph) : Bool := ig.edges.all (fun e => e.1 < ig.nodes.length && e.2.1 < ig.nodes.length)
+
+/-- the wire form `IGraph` can name positions that do not exist; an `nx.Graph` cannot have such an edge.
+    `close` is the decoding: dangling edges are dropped (the identity on every well-formed graph,
+    `IGraph.close_of_WF`), so that `step` is total and needs no side condition on imports. -/
+def IGraph.close (ig : IGraph) : IGraph :=
+  { ig with edges := ig.edges.filter (fun e => e.1 < ig.nodes.length && e.2.1 < ig.nodes.length) }
+
+theorem IGraph.close_WF (ig : IGraph) : ig.close.WF = true := by
+  simp only [IGraph.WF, IGraph.close, List.all_eq_true, List.mem_filter]
+  intro e he; exact he.2
+
+theorem IGraph.close_of_WF (ig : IGraph) (h : ig.WF = true) : ig.close = ig := by
+  unfold IGraph.close
+  have : ig.edges.filter (fun e => e.1 < ig.nodes.length && e.2.1 < ig.nodes.length) = ig.edges := by
+    rw [List.filter_eq_self]
+    simpa [IGraph.WF, List.all_eq_true] using h
+  rw [this]
 
 /-! ## operations as data, histories -/
 
@@ -420,6 +446,7 @@ inductive Op where
   | graphExists (g : String)
   | checkNodeUnique (g label name : String)
   | findMatchingNodes (g other : String)
+  | delAllGraphs
   deriving Repr
 
 def step : Op → Store → R
@@ -434,8 +461,8 @@ def step : Op → Store → R
   | .unsetLinkProperty g a b kind k => unsetLinkProperty g a b kind k
   | .updateLinkProperties g a b kind props => updateLinkProperties g a b kind props
   | .deleteGraph g => delGraph g
-  | .addGraph g ig => addGraph g ig
-  | .addGraphDirect g ig => addGraphDirect g ig
+  | .addGraph g ig => addGraph g ig.close
+  | .addGraphDirect g ig => addGraphDirect g ig.close
   | .clone g g2 => cloneGraph g g2
   | .mergeNodes g nid g2 pol => mergeNodes g nid g2 pol
   | .getNodeProperties g nid => getNodeProperties g nid
@@ -447,17 +474,15 @@ def step : Op → Store → R
   | .graphExists g => graphExists g
   | .checkNodeUnique g label name => checkNodeUnique g label name
   | .findMatchingNodes g other => findMatchingNodes g other
+  | .delAllGraphs => delAllGraphs
 
 def run (ops : List Op) (s : Store) : Store := ops.foldl (fun s o => (step o s).2) s
 
-/-- edges of an imported graph refer to positions of its node list (an `nx.Graph` always does) -/
-def IGraph.WF (ig : IGraph) : Bool := ig.edges.all (fun e => e.1 < ig.nodes.length && e.2.1 < ig.nodes.length)
-
-/-- every import in the history hands over a well-formed graph; merges name another graph -/
+/-- every import hands over a well-formed graph (the drivers refuse anything else as `bad-args`; the
+    theorems do not need it: `step` closes the graph first) -/
 def Op.WF : Op → Bool
   | .addGraph _ ig => ig.WF
   | .addGraphDirect _ ig => ig.WF
-  | .mergeNodes g _ g2 _ => g != g2        -- merging a graph's node with itself is outside the model
   | _ => true
 
 /-- the graph an operation is addressed to (for `clone`: the new id) -/
@@ -468,6 +493,7 @@ def Op.target : Op → String
   | .getNodeProperties g .. | .getLinkProperties g .. | .listAllNodeIds g | .nodesByClass g ..
   | .nodesByClassAndType g .. | .nodeExists g .. | .graphExists g | .checkNodeUnique g .. | .findMatchingNodes g .. => g
   | .clone _ g2 => g2
+  | .delAllGraphs => ""          -- addressed to the store, not to a graph (`Op.affects` is true of every id)
 
 /-- the operation does not re-home nodes by writing the `GraphID` property (C04's quantifier excludes
     that; C14 covers it), a direct import carries its own id on every node, and it is not a merge
@@ -479,6 +505,30 @@ def Op.keepsGraphId : Op → Bool
   | .updateNodeProperties _ _ p => !AMap.has graphId p
   | .addGraphDirect g ig => ig.nodes.all (fun a => AMap.get graphId a == some (.str g))
   | .mergeNodes .. => false
+  | .delAllGraphs => false
   | _ => true
+
+def Op.isDelAll : Op → Bool
+  | .delAllGraphs => true
+  | _ => false
+
+/-- the last value `d.update(p)` leaves under `GraphID`, if `p` names it -/
+def gidOf (p : Props) : Option Val := AMap.get graphId (AMap.update [] p)
+
+/-- the `GraphID` values an operation may write onto stored nodes (besides its own target's id) -/
+def Op.gidWrites : Op → List Val
+  | .addNode _ _ _ (some p) => (gidOf p).toList
+  | .updateNodeProperty _ _ k v => if k = graphId then [v] else []
+  | .updateNodesProperty _ k v => if k = graphId then [v] else []
+  | .updateNodeProperties _ _ p => (gidOf p).toList
+  | .addGraphDirect _ ig => ig.nodes.filterMap (AMap.get graphId)
+  | _ => []
+
+/-- the graph ids whose content an operation may change: its target, the ids it re-homes nodes to by
+    writing `GraphID`, the second graph of a merge, every id for `delete_all_graphs`.  (A merge policy that
+    names `GraphID` with `overwrite` moves the surviving node to the *second* graph, already listed.) -/
+def Op.affects (op : Op) (g' : String) : Bool :=
+  g' == op.target || op.gidWrites.contains (.str g') ||
+  (match op with | .mergeNodes _ _ g2 _ => g' == g2 | .delAllGraphs => true | _ => false)
 
 end FimVerif.Store
